@@ -146,10 +146,41 @@ def traces(rep, n, seed):
         rep.sample({"kind": "C->S unseen event", "formula": texts[e["id"]], "mode": e["mode"], "part": e["part"], "status": e["status"], "new_f": e["new"]["cols"]["f"]["v"], "new_g": e["new"]["cols"]["g"]["v"]})
 
 
+def _fresh_default():
+    import warnings
+
+    import pandas as pd
+
+    from formulae import config, design_matrices
+
+    mode = config["EVAL_UNSEEN_CATEGORIES"]
+    dm = design_matrices("y ~ g", pd.DataFrame({"y": [1.0, 2.0, 3.0], "g": ["a", "b", "a"]}))
+    try:
+        with warnings.catch_warnings():
+            warnings.simplefilter("error")
+            dm.common.evaluate_new_data(pd.DataFrame({"g": ["a", "zz"]}))
+        return mode, "returned"
+    except ValueError:
+        return mode, "ValueError"
+    except Exception as e:  # pylint: disable=broad-except
+        return mode, type(e).__name__
+
+
 def config_rules(rep):
     """The configuration accepts only its documented keys and values (judged by Lifecycle_Trace)."""
     from formulae import config
+    from fv import fresh
     from fv.drivers import c07
+
+    # nobody has configured anything yet: the mode in force is 'error' (a fresh interpreter)
+    srv = fresh.FreshServer()
+    try:
+        mode, outcome = srv.call(_fresh_default)
+    finally:
+        srv.stop()
+    rep.cov["evaluations"] += 1
+    if mode != "error" or outcome != "ValueError":
+        rep.violation({"clause": "default_mode_is_not_error", "site": "formulae.config"}, {"mode_of_a_fresh_process": mode, "unseen_level_evaluation": outcome})
 
     events = [{"id": 1, "hid": 0, "op": "reset", "v": "", "status": "ok", "ref_status": "ok", "out": 0, "ref": 0, "changed": [], "mode": "error"}]
     config["EVAL_UNSEEN_CATEGORIES"] = "error"
